@@ -190,12 +190,11 @@ class C16(Check):
                   suppress_health_check=list(HealthCheck), report_multiple_bugs=False)
         @given(st.integers(0, 2), cbs, st.data())
         def prop(parsed, callbacks, data):
-            if runner.time_left() < 0:
-                res.truncated = True
-                return
             parsed = parsed == 0
             spec = data.draw(trees.spec_strategy(max_leaves=14, parseable=parsed))
             case = {'spec': spec, 'parsed': parsed, 'callbacks': callbacks}
+            if runner.over_budget(res):
+                return
             res.evals += 1
             bad, root = run_case(mod, case)
             res.hist['ncallbacks_%d' % len(callbacks)] += 1
@@ -206,7 +205,10 @@ class C16(Check):
                     res.sample({'tree': repr(root)[:250], 'callbacks': callbacks})
             if bad:
                 res.mismatch(case)
-        prop()
+        try:
+            prop()
+        except runner.StopTask:
+            pass
         return res
 
     def replay(self, case):
